@@ -69,6 +69,12 @@ def _work(chunk):
 def observe_all(ctx, observers, buf, parallel=True):
     """run the observers over the cases; large batches are spread over worker processes (fork)"""
     global _OBS
+    if parallel == "threads":
+        # observers that only wait for a child process: threads are enough
+        from concurrent.futures import ThreadPoolExecutor
+
+        with ThreadPoolExecutor(max_workers=12) as ex:
+            return list(ex.map(lambda c: observers[c[0]](c[1]), buf))
     if not parallel or len(buf) < 1500:
         return [observers[o](i) for o, i in buf]
     import multiprocessing as mp
